@@ -68,6 +68,9 @@ var (
 )
 
 func main() {
+	if d := os.Getenv("GOVC_VERIF_DIR"); d != "" {
+		verifDir = d // development: a scratch copy of /verif (contracts, props, replay harnesses)
+	}
 	if len(os.Args) < 2 {
 		fmt.Println("usage: govc check|dump|replay ...")
 		os.Exit(2)
